@@ -201,7 +201,11 @@ class Sched:
 
     def _mine(self):
         me = self.current
-        return me if (self.active and me is not None and real_threading.current_thread() is me.real) else None
+        me = me if (self.active and me is not None and real_threading.current_thread() is me.real) else None
+        if me is not None and self.aborting:
+            # the run is being torn down: code that unwinds (a `with lock:` block releasing its lock) must not wait for anybody
+            raise SimAbort()
+        return me
 
     def yield_point(self, why):
         me = self._mine()
@@ -315,7 +319,76 @@ def make_fakes(sched):
             if self.st.started and self.st.state != 'done':
                 sched.block(lambda: self.st.state == 'done', 'Thread.join', timeout)     # a timed join just returns when time is up
 
-    ft = types.SimpleNamespace(Event=FEvent, Thread=FThread)
+    class FLock:
+        """threading.Lock: not re-entrant - a thread that acquires it twice waits for itself"""
+
+        def __init__(self):
+            self.held = False
+
+        def acquire(self, blocking=True, timeout=-1):
+            sched.yield_point('Lock.acquire')
+            if self.held:
+                if not blocking:
+                    return False
+                sched.block(lambda: not self.held, 'Lock.acquire', None if timeout is None or timeout < 0 else timeout)
+                if self.held:
+                    return False
+            self.held = True
+            return True
+
+        def release(self):
+            if not self.held:
+                raise RuntimeError('release unlocked lock')
+            self.held = False
+            sched.yield_point('Lock.release')
+
+        def locked(self):
+            return self.held
+
+        def __enter__(self):
+            self.acquire()
+            return self
+
+        def __exit__(self, *a):
+            self.release()
+
+    class FRLock:
+        """threading.RLock"""
+
+        def __init__(self):
+            self.owner = None
+            self.count = 0
+
+        def acquire(self, blocking=True, timeout=-1):
+            sched.yield_point('RLock.acquire')
+            me = sched.current
+            if self.owner is not None and self.owner is not me:
+                if not blocking:
+                    return False
+                sched.block(lambda: self.owner is None, 'RLock.acquire', None if timeout is None or timeout < 0 else timeout)
+                if self.owner is not None:
+                    return False
+            self.owner = me
+            self.count += 1
+            return True
+
+        def release(self):
+            if self.owner is not sched.current or self.count == 0:
+                raise RuntimeError('cannot release un-acquired lock')
+            self.count -= 1
+            if self.count == 0:
+                self.owner = None
+            sched.yield_point('RLock.release')
+
+        def __enter__(self):
+            self.acquire()
+            return self
+
+        def __exit__(self, *a):
+            self.release()
+
+    ft = types.SimpleNamespace(Event=FEvent, Thread=FThread, Lock=FLock, RLock=FRLock,
+                               current_thread=lambda: types.SimpleNamespace(name=sched.current.name if sched.current else 'main'))
     ftime = types.SimpleNamespace(time=sched.wall, sleep=sched.sleep)
     return ft, ftime
 
